@@ -144,6 +144,22 @@ fn lex_err(what: &str, offset: usize) -> RefErr {
 /// Maximal-munch tokenizer. Returns the tokens and, if some boundary decision is not
 /// covered by LANGUAGE.md, the name of that decision.
 pub fn tokenize(src: &str) -> Result<(Vec<Tok>, Option<&'static str>), RefErr> {
+    let mut toks = Vec::new();
+    let unspecified = tokenize_into(src, &mut toks)?;
+    Ok((toks, unspecified))
+}
+
+/// The tokens up to the first lexical error (all of them if there is none), the
+/// unspecified-boundary flag seen so far, and that error.
+pub fn tokenize_partial(src: &str, toks: &mut Vec<Tok>) -> (Option<&'static str>, Option<RefErr>) {
+    toks.clear();
+    match tokenize_into(src, toks) {
+        Ok(u) => (u, None),
+        Err(e) => (None, Some(e)),
+    }
+}
+
+fn tokenize_into(src: &str, toks: &mut Vec<Tok>) -> Result<Option<&'static str>, RefErr> {
     let mut unspecified = None;
     for (i, c) in src.char_indices() {
         match forbidden_class(c) {
@@ -153,7 +169,6 @@ pub fn tokenize(src: &str) -> Result<(Vec<Tok>, Option<&'static str>), RefErr> {
         }
     }
     let b = src.as_bytes();
-    let mut toks = Vec::new();
     let mut p = 0;
     while p < b.len() {
         let c = b[p];
@@ -270,7 +285,7 @@ pub fn tokenize(src: &str) -> Result<(Vec<Tok>, Option<&'static str>), RefErr> {
         }
         return Err(lex_err(if c.is_ascii_uppercase() { "uppercase-identifier-word" } else { "stray-character" }, p));
     }
-    Ok((toks, unspecified))
+    Ok(unspecified)
 }
 
 /// Coarse class of a token, for fingerprints.
